@@ -10,7 +10,8 @@ EXPLANATION = ("Decides structural clauses of C08, not the behaviour: the usage-
                "to a parser only after its integrity check (SHA-1 compare for Cfb, AEAD tag for Aead, 16-bit checksum parser for the "
                "legacy/malleable arms) and uses the parser variant matching whether a checksum is carried; the Argon2/v6 restrictions "
                "dominate key derivation; the AEAD associated data binds the public key; lock and unlock share one derivation. "
-               "Not decided: that the right password restores the exact material, or that any bit flip is detected.")
+               "Not decided: that the right password restores the exact material, or that any bit flip is detected."
+               ' Also (shared with C12): S2K derivation clauses and the packet type id octet 0xC0|tag in HKDF info and associated data of AEAD-protected secret keys.')
 ASSUMPTIONS = ["checksum::calculate_sha1, AeadAlgorithm::decrypt_in_place, StringToKey::derive_key do what their names say"]
 
 U = 'types::params::encrypted_secret::EncryptedSecretParams::unlock'
